@@ -745,6 +745,25 @@ func (ia *IA) LenAt(x ssa.Value, at ssa.Instruction) Itv {
 	return ia.evalLen(Strip(x), s, 0)
 }
 
+// LenOnEdge is the interval of len(x) on CFG edge e (before the target block's own
+// definitions are re-executed, which matters on loop back edges).
+func (ia *IA) LenOnEdge(x ssa.Value, e Edge) Itv {
+	s := ia.edge[e]
+	if s == nil {
+		return Itv{1, 0}
+	}
+	return ia.evalLen(Strip(x), s, 0)
+}
+
+// ValueOnEdge is the interval of integer value v on CFG edge e.
+func (ia *IA) ValueOnEdge(v ssa.Value, e Edge) Itv {
+	s := ia.edge[e]
+	if s == nil {
+		return Itv{1, 0}
+	}
+	return ia.eval(v, s, 0)
+}
+
 // OperandLenAt is LenAt for the operand of a Slice/Index instruction (handles *array).
 func (ia *IA) OperandLenAt(x ssa.Value, at ssa.Instruction) Itv {
 	s := ia.in[at.Block()]
